@@ -250,7 +250,7 @@ def c19(ck):
     ck.rule = ("complete bounded domain over {cap_chown, CAP_KILL, all, cap_bogus, ',', '=', '+', '-', e, i, p, x, ' '} "
                "plus seeded longer strings over all 41 names; each text goes through FileCaps::from_str, "
                "FileCaps::new and FileOptions::caps; non-trivial = distinct accepted texts")
-    ck.assumptions.append("a comma list mixing 'all' with other names is a don't-care (statement ambiguous)")
+    ck.assumptions.append("'all' is read as an alternative to the name list (\"names (or 'all')\"): a comma list that contains 'all' next to other names is ill-formed")
     ck.finish()
 
 
@@ -332,9 +332,14 @@ def pkg_canaries(events):
     c = _first(events, acc, "C01")
     c["diff"] = c["diff"] + [[50, 1]]              # a lead byte came out different
     out.append(("C01:", c))
-    c = _first(events, acc, "C16")
-    c["off"]["hdr"] += 8
-    out.append(("C16:", c))
+    # (offsets of a parsed package are judged when it round-trips, so the copy must be of such an event; when the
+    # library under test round-trips nothing, the in-memory canary below still shows the binding)
+    rt = lambda e: (acc(e) and e.get("written_len") == e["input_len"] and not e.get("diff") and e.get("tail_equal")
+                    and e.get("reparsed_equal") and e.get("rewritten_equal"))
+    if any(rt(e) for e in events):
+        c = _first(events, rt, "C16")
+        c["off"]["hdr"] += 8
+        out.append(("C16:", c))
     c = _first(events, lambda e: acc(e) and "off_mem" in e, "C16 (in-memory offsets)") if any("off_mem" in e for e in events) else None
     if c:
         c["off_mem"]["payload"] -= 16
